@@ -1,6 +1,7 @@
 package main
 
 import (
+	"reflect"
 	"encoding/json"
 	"fmt"
 	"math/rand"
@@ -102,13 +103,18 @@ type c09Expect struct {
 	Lits    map[string]string `json:"lits"` // encoder -> literal
 	Sep     string            `json:"sep"`
 	Order   []string          `json:"order"`
+	// glued family: three literals in one statement executed three times by a loop; the first is
+	// followed by bareword text, the second by a variable
+	Glued     bool     `json:"glued,omitempty"`
+	GluedSrc  string   `json:"glued_src,omitempty"`
+	GluedWant []string `json:"glued_want,omitempty"`
 }
 
 func init() {
 	register(&Property{
 		ID:    "C09",
 		Level: "exploration",
-		Rule: "payload strings over an alphabet rich in quotes, backslashes, brackets, # ; | newlines, tabs and non-ASCII are encoded by three independent encoders (single quote: payload without '; double quote: \\ \" $ ~ escaped, optional \\s \\t \\n and \\<char>; brace quote %( ): balanced parentheses, no $ or ~) and placed as a statement argument (observed through a function's $PARAMS) and as an expression value (`v = LIT`, variable read back through the API); oracle: decoded value == payload; " +
+		Rule: "payload strings over an alphabet rich in quotes, backslashes, brackets, # ; | newlines, tabs and non-ASCII are encoded by three independent encoders (single quote: payload without '; double quote: \\ \" $ ~ escaped, optional \\s \\t \\n and \\<char>; brace quote %( ): balanced parentheses, no $ or ~) and placed as a statement argument (observed through a function's $PARAMS) and as an expression value (`v = LIT`, variable read back through the API); for every fourth payload also three literals in one statement that a foreach body executes three times, the first glued to bareword text (`'ab'xy`) and the second to a variable (`\"ab\"$v`); oracle: decoded value == payload (every execution of the loop body receives the same values); " +
 			"non-trivial = payload contains a quote, backslash, bracket, #, ; | or newline; distinct by (payload, encoder)",
 		Assumptions: []string{"payloads contain no upper-case letters, so `{RED}`-style ANSI constants (documented for %( ) and expanded by `out`) cannot occur", "CR is not generated (the property's escapes list \\r but raw CR handling in sources is not part of it)"},
 		Run: func(x *Ctx) {
@@ -146,6 +152,35 @@ func init() {
 				}
 				exp, _ := json.Marshal(e)
 				cases = append(cases, &proto.Case{ID: fmt.Sprintf("c09-%d", i), Op: "prog", Block: b.String(), ReadVars: rv, Expect: exp, TimeoutMs: 30000})
+				if i%4 == 0 {
+					// the literal is part of a longer parameter (`'ab'cd`, `"ab"$v`) in a statement that a
+					// loop executes three times: every execution must see the same three values
+					ps := []string{p, c09Payload(r, 6), c09Payload(r, 6)}
+					var lits []string
+					for _, q := range ps {
+						var opts []string
+						if l, ok := encSingle(q); ok {
+							opts = append(opts, l)
+						}
+						if l, ok := encDouble(r, q); ok {
+							opts = append(opts, l)
+						}
+						if l, ok := encBrace(q); ok {
+							opts = append(opts, l)
+						}
+						if len(opts) == 0 {
+							break
+						}
+						lits = append(lits, opts[r.Intn(len(opts))])
+					}
+					if len(lits) == 3 {
+						stmt := fmt.Sprintf("c09pf %sxy %s$c09v %s", lits[0], lits[1], lits[2])
+						g := c09Expect{Payload: p, Sep: e.Sep, Glued: true, GluedSrc: stmt, GluedWant: []string{ps[0] + "xy", ps[1] + "0123456789", ps[2]}}
+						gexp, _ := json.Marshal(g)
+						block := "function c09pf { out $PARAMS }\nc09v = '0123456789'\na [1..3] -> foreach c09i {\n" + stmt + "\nout '" + e.Sep + "'\n}\n"
+						cases = append(cases, &proto.Case{ID: fmt.Sprintf("c09g-%d", i), Op: "prog", Block: block, Expect: gexp, TimeoutMs: 30000})
+					}
+				}
 			}
 			x.RunAll(pool, cases)
 		},
@@ -158,6 +193,24 @@ func init() {
 			run := r.Runs[0]
 			nt := strings.ContainsAny(e.Payload, "'\"\\()[]{}#;|\n")
 			parts := strings.Split(string(run.Stdout), e.Sep+"\n")
+			if e.Glued {
+				x.Count("glued statements in a loop", 1)
+				if nt {
+					x.Nontrivial("glued\x00" + e.GluedSrc)
+				}
+				for it := 0; it < 3; it++ {
+					var a []string
+					if it >= len(parts) || json.Unmarshal([]byte(parts[it]), &a) != nil || !reflect.DeepEqual(a, e.GluedWant) {
+						got := "<missing>"
+						if it < len(parts) {
+							got = parts[it]
+						}
+						x.Viol(fmt.Sprintf("quote:glued:iteration-%d", it+1), fmt.Sprintf("statement `%s` in a foreach body, execution %d of 3, received %q, expected %q; stderr=%q", e.GluedSrc, it+1, trunc(got, 300), e.GluedWant, trunc(string(run.Stderr), 300)), c, got, e.GluedWant)
+						return
+					}
+				}
+				return
+			}
 			if len(e.Payload) > 2 && len(e.Payload) < 30 {
 				x.Sample(map[string]any{"payload": e.Payload, "literals": e.Lits})
 			}
